@@ -46,7 +46,11 @@ FIRE = [
     ("add-gate-arity-without-controls", "C11", [(CIRC, "n_qubit = len(gate.target) if (gate.control is None) else len(gate.target) + len(gate.control)", "n_qubit = len(gate.target)")], "K6.add_gate"),
     ("foreign-writer-of-gate-counts", "C11", [(TION, "    json_gates = []\n    for gate in source_circuit._gates:", "    json_gates = []\n    source_circuit._gate_counts.pop('MEASURE', None)\n    for gate in source_circuit._gates:")], "K"),
     ("cswap-single-target", "C11", [(GATE, 'TWO_TARGET_GATES = {"XX", "SWAP", "CSWAP"}', 'TWO_TARGET_GATES = {"XX", "SWAP"}')], "K3.arity-cover"),
+    ("add-ignores-right-fixed-width", "C11", [(CIRC, "n_qubits = max(self.width, other.width) if self._qubits_simulated or other._qubits_simulated else None", "n_qubits = max(self.width, other.width) if self._qubits_simulated else None")], "K9.width-propagation"),
+    ("gate-accepts-bool-free-float-index", "C11", [(GATE, "if (type(ind) != int) or (ind < 0):", "if (not isinstance(ind, (int, float))) or (ind < 0):")], "K6.gate-validation"),
     # ---- C09
+    ("eq-ignores-names-when-one-is-cnot", "C09", [(GATE, 'if ds["name"] in ["CNOT", "CX"] and do["name"] in ["CNOT", "CX"] else ["parameter"]', 'if ds["name"] in ["CNOT", "CX"] or do["name"] in ["CNOT", "CX"] else ["parameter"]')], "K9.gate-equality"),
+    ("mul-returns-self-for-one", "C09", [(CIRC, "        return Circuit(self._gates * n_repeat, n_qubits=self._qubits_simulated)", "        if n_repeat == 1:\n            return self\n        return Circuit(self._gates * n_repeat, n_qubits=self._qubits_simulated)")], "K1.fresh-result"),
     ("inverse-of-T-wrong-angle", "C09", [(GATE, 'new_parameter = -pi / 2 if self.name == "S" else -pi / 4', 'new_parameter = -pi / 2 if self.name == "S" else -pi / 8')], "K9.inverse-table"),
     ("clifford-row-order", "C09", [(CLIFF, '            gate_list = [Gate("Z", gate.target), Gate("H", gate.target)]', '            gate_list = [Gate("H", gate.target), Gate("Z", gate.target)]')], "K9.clifford-table"),
     ("circuit-inverse-not-reversed", "C09", [(CIRC, "gates = [gate.inverse() for gate in reversed(self._gates)]", "gates = [gate.inverse() for gate in self._gates]")], "K9.circuit-inverse"),
@@ -62,7 +66,11 @@ FIRE = [
     ("sampling-roundtrip-bit-order", "C01", [(BACK, "xk.append(int(k[::-1], 2))", "xk.append(int(k, 2))")], "K10.bit-order"),
     ("sympy-ry-sign", "C01", [(TSYM, "ry_matrix = ImmutableMatrix([[cos_term, -sin_term], [sin_term, cos_term]])", "ry_matrix = ImmutableMatrix([[cos_term, sin_term], [-sin_term, cos_term]])")], "K9.sympy-gates"),
     ("cirq-table-cy-is-z", "C01", [(TCIRQ, '    GATE_CIRQ["CY"] = cirq.Y', '    GATE_CIRQ["CY"] = cirq.Z')], "K9.cirq-units"),
+    ("sampler-loses-exact-multiples", "C01", [(BACK, "            n_chunks = self.n_shots // chunk_size\n            freqs_shots = Counter()\n            for i in range(n_chunks+1):\n                this_chunk = self.n_shots % chunk_size if i == n_chunks else chunk_size",
+                                              "            n_chunks = max(1, self.n_shots // chunk_size)\n            freqs_shots = Counter()\n            for i in range(n_chunks):\n                this_chunk = self.n_shots % chunk_size if i == n_chunks - 1 else chunk_size")], "K9.shot-conservation"),
     # ---- C02
+    ("parity-uses-or", "C02", [(BACK, "        sample = (-1) ** ((bitarray(mask) & bitarray(basis_state)).to01().count(\"1\") % 2)\n        expectation_term += sample * freq",
+                                "        sample = (-1) ** ((bitarray(mask) | bitarray(basis_state)).to01().count(\"1\") % 2)\n        expectation_term += sample * freq")], "K9.parity-estimator"),
     ("basis-Y-wrong-sign", "C02", [(MB, 'gates.append(Gate("RX", qubit_index, parameter=np.pi/2))', 'gates.append(Gate("RX", qubit_index, parameter=-np.pi/2))')], "K9.measurement-basis"),
     ("expectation-drops-initial-state", "C02", [(BACK, "            frequencies, _ = self.simulate(full_circuit,\n                                           initial_statevector=updated_statevector,\n                                           desired_meas_result=desired_meas_result)\n            expectation_term",
                                                  "            frequencies, _ = self.simulate(full_circuit,\n                                           desired_meas_result=desired_meas_result)\n            expectation_term")], "K"),
@@ -112,6 +120,9 @@ FIRE = [
 ]
 
 SILENT = [
+    ("parity-without-mod", "C02", [(BACK, "        sample = (-1) ** ((bitarray(mask) & bitarray(basis_state)).to01().count(\"1\") % 2)\n        expectation_term += sample * freq",
+                                    "        sample = (-1) ** (bitarray(mask) & bitarray(basis_state)).count(1)\n        expectation_term += freq * sample")]),
+    ("duplicate-check-by-sets", "C11", [(GATE, "        if len(all_involved_qubits) != len(set(all_involved_qubits)):", "        if len(set(all_involved_qubits)) < len(all_involved_qubits):")]),
     ("rename-local-in-add-gate", "C11", [(CIRC, "        all_involved_qubits = gate.target if gate.control is None else gate.target + gate.control\n        for q in all_involved_qubits:\n            check_index_valid(q)\n",
                                            "        involved = gate.target if gate.control is None else gate.target + gate.control\n        all_involved_qubits = involved\n        for q in involved:\n            check_index_valid(q)\n")]),
     ("gate-index-check-isinstance-form", "C11", [(GATE, "if (type(ind) != int) or (ind < 0):", "if not (type(ind) == int) or ind <= -1:")]),
